@@ -195,3 +195,58 @@ def check(env, rep, tier):
                     rep.ob("C13.3", "new|szx<=7", hi <= 7, "BlockValue::new can produce size_exponent up to %s" % hi,
                            {"file": b["span"]["f"], "line": b["span"]["l"], "fn": b["path"]})
             rep.ob("C13.3", "new|ok-path", n_ok > 0, "BlockValue::new has no success path")
+            check_constructor_classes(prog, rep, i_num, i_szx)
+
+
+def check_constructor_classes(prog, rep, i_num, i_szx):
+    """C13.4: BlockValue::new per size class (interval evaluation, the search over 0..64 evaluated exactly)"""
+    b = find_body(prog, BV + "::new")
+    if b is None:
+        return
+    site = {"file": b["span"]["f"], "line": b["span"]["l"], "fn": b["path"]}
+    classes = [("size=0", 0, 0, None), ("size 1..15", 1, 15, 0)]
+    for k in range(8):
+        classes.append(("size %d..%d" % (16 << k, (32 << k) - 1), 16 << k, (32 << k) - 1, k))
+    classes.append(("size 4096..8191", 4096, 8191, None))
+    classes.append(("size >= 8192", 8192, (1 << 63) - 1, None))
+    for name, lo, hi, want in classes:
+        I = new_interp(prog)
+        I.precise_find = True
+        I.no_join_bodies.add(b["id"])
+        I.K_ret = 200
+        I.K = 400
+        st = State()
+        args = [I.mat(st, prog.ty(b["locals"][i + 1]["ty"]), "a%d" % i) for i in range(b["arg_count"])]
+        st.add_fact(args[2].aff - lo)
+        st.add_fact(Aff.const(hi) - args[2].aff)
+        st.add_fact(Aff.const(65535) - args[0].aff)      # representable block number
+        I, res = run(prog, b, args=args, st=st, I=I)
+        got = set()
+        for s, rv in res:
+            if isinstance(rv, EnumV):
+                for vi, p in rv.variants.items():
+                    if vi == 1:
+                        got.add("Err")
+                    else:
+                        bv = p.fields[0]
+                        z = bv.fields[i_szx]
+                        l, h = s.range(z.aff) if isinstance(z, IntV) else (None, None)
+                        got.add(l if l == h else "szx in [%s,%s]" % (l, h))
+                        n = bv.fields[i_num]
+                        if not (isinstance(n, IntV) and n.aff == args[0].aff):
+                            got.add("num changed")
+        exp = {"Err"} if want is None else {want}
+        rep.ob("C13.4", "new|" + name, got == exp,
+               "BlockValue::new with %s yields %s, expected %s" % (name, sorted(map(str, got)), sorted(map(str, exp))), site,
+               sample={"rule": "C13.4", "class": name, "result": sorted(map(str, got))})
+    # unrepresentable block number
+    I = new_interp(prog)
+    I.precise_find = True
+    st = State()
+    args = [I.mat(st, prog.ty(b["locals"][i + 1]["ty"]), "a%d" % i) for i in range(b["arg_count"])]
+    st.add_fact(args[0].aff - 65536)
+    st.add_fact(args[2].aff - 16)
+    st.add_fact(Aff.const(31) - args[2].aff)
+    I, res = run(prog, b, args=args, st=st, I=I)
+    ok = bool(res) and all(isinstance(rv, EnumV) and list(rv.variants) == [1] for s, rv in res)
+    rep.ob("C13.4", "new|num>65535", ok, "BlockValue::new accepts a block number above 65535 (silently truncated?)", site)
